@@ -78,6 +78,8 @@ pub struct UdpCfg {
     /// client 0's token lists, before its relay's address, a second server (own challenge key, same host, other
     /// port) whose path holds every client datagram for this many ticks: its answers arrive after the fail-over
     pub decoy_delay: Option<u32>,
+    /// ServerAuthentication::Unsecure / ClientAuthentication::Unsecure (the mode of the examples and demos)
+    pub unsecure: bool,
 }
 
 struct Decoy {
@@ -196,7 +198,7 @@ impl<'c> World<'c> {
                 max_clients: 4,
                 protocol_id: PROTOCOL,
                 public_addresses: relays.iter().map(|r| r.addr).collect(),
-                authentication: ServerAuthentication::Secure { private_key: KEY },
+                authentication: if cfg.unsecure { ServerAuthentication::Unsecure } else { ServerAuthentication::Secure { private_key: KEY } },
             },
             server_sock,
         )
@@ -223,7 +225,12 @@ impl<'c> World<'c> {
             };
             let token = ConnectToken::generate(Duration::ZERO, PROTOCOL, 60, id, TIMEOUT_S, addrs, Some(&ud), &KEY)
                 .map_err(|e| Violation::new("machinery/token", e.to_string()))?;
-            let tr = NetcodeClientTransport::new(Duration::ZERO, ClientAuthentication::Secure { connect_token: token }, s)
+            let auth = if cfg.unsecure {
+                ClientAuthentication::Unsecure { protocol_id: PROTOCOL, client_id: id, server_addr: relays[i].addr, user_data: Some(ud) }
+            } else {
+                ClientAuthentication::Secure { connect_token: token }
+            };
+            let tr = NetcodeClientTransport::new(Duration::ZERO, auth, s)
                 .map_err(|e| Violation::new("machinery/transport", e.to_string()))?;
             let mut cc = ConnectionConfig::default();
             if cfg.end == End::ClientBadChannel && i == 1 {
@@ -857,6 +864,7 @@ pub fn scenarios(tier: Tier) -> Vec<UdpScenario> {
                 server_hitch: None,
                 empty_flood: None,
                 decoy_delay: None,
+                unsecure: false,
             },
         });
     }
@@ -879,6 +887,7 @@ pub fn scenarios(tier: Tier) -> Vec<UdpScenario> {
                     server_hitch: None,
                     empty_flood: None,
                 decoy_delay: None,
+                unsecure: false,
                 },
             });
         }
@@ -899,6 +908,7 @@ pub fn scenarios(tier: Tier) -> Vec<UdpScenario> {
         server_hitch: None,
         empty_flood: None,
         decoy_delay: None,
+        unsecure: false,
     };
     {
         // time-out 2 s = 8 ticks of silence from the first address, then the relay's address answers
@@ -907,6 +917,11 @@ pub fn scenarios(tier: Tier) -> Vec<UdpScenario> {
         c.send_tick = 15;
         c.fault_from = 10;
         c.horizon = 17;
+        v.push(UdpScenario { cfg: c });
+    }
+    {
+        let mut c = base("2 clients, unsecure authentication on both sides, messages at tick 4");
+        c.unsecure = true;
         v.push(UdpScenario { cfg: c });
     }
     for delay in [8u32, 9, 11] {
